@@ -206,11 +206,13 @@ fn expect(
 
 /// Does the reported value match one of the admissible exact totals, rounded (or not) to T's
 /// precision? `scale` = sum of the magnitudes of the converted terms: rates are 28-place
-/// decimals, so the code's total may deviate from the exact one by ~1e-27 of that, which can
+/// decimals, so the code's total may deviate from the exact one by up to ~1e-17 of that (1e-27 for rates of ordinary size), which can
 /// also flip a rounding that sits exactly on a tie.
 fn total_matches(got: Q, wants: &[Q], scale: f64, dp: Option<u32>) -> bool {
     let f = |q: Q| q.n as f64 / q.d as f64;
-    let tol = scale * 1e-18 + 1e-22;
+    // rates are kept with 28 decimals, not 28 significant digits: a chain through a tiny rate
+    // (1/1100000) carries a relative error of up to ~1e-17, which the amounts then inherit
+    let tol = scale * 1e-15 + 1e-22;
     for w in wants {
         if got == *w {
             return true;
